@@ -24,9 +24,10 @@ BASES = {"code": 0x00000, "data": 0x80000}
 # (template text, kind) ; {L} = label reference slot
 PLAIN = [
     "NOP", "MV A, 0x12", "MV BA, 0x1234", "MV X, 0x12345", "MV (BP+0x10), 0x20", "MV [0x12345], (BP+0x10)",
-    "defb 1, 2, 3", "defw 0x1234", "defl 0x012345", "defs 3", 'defm "AB"',
+    "defb 1, 2, 3", "defw 0x1234", "defl 0x012345", "defs 3", 'defm "AB"', 'defb "AB", 3', "defs 0", "",
 ]
-REFS = ["JP {L}", "JPZ {L}", "CALL {L}", "CALLF {L}", "JPF {L}", "MV X, {L}", "MV BA, {L}", "MV A, [{L}]", "defw {L}", "defl {L}"]
+REFS = ["JP {L}", "JPZ {L}", "CALL {L}", "CALLF {L}", "JPF {L}", "MV X, {L}", "MV BA, {L}", "MV A, [{L}]", "defw {L}", "defl {L}", "defb {L}, 1",
+        "jp {l}"]
 LOCS = ["SECTION code", "SECTION data", "SECTION bss", ".ORG 0x100", ".ORG 0x10100", ".ORG {L}"]
 
 
@@ -34,7 +35,7 @@ def palette(full: bool) -> List[Tuple[str, str]]:
     """(template, ref mode) pairs; ref mode 'fwd' = refers to the LAST label of the program, 'back' = to the first."""
     out: List[Tuple[str, str]] = [(t, "") for t in PLAIN] + [(t, "") for t in LOCS if "{L}" not in t]
     refs = REFS if full else ["JP {L}", "CALL {L}", "CALLF {L}", "MV X, {L}", "MV A, [{L}]", "defw {L}"]
-    for t in refs + [".ORG {L}"]:
+    for t in refs + [".ORG {L}"] + (["defb {L}, 1", "jp {l}"] if not full else []):
         out.append((t, "fwd"))
         out.append((t, "back"))
     return out
@@ -46,7 +47,7 @@ def program_text(stmts: List[Tuple[str, str]]) -> Tuple[str, List[str]]:
     plain = []
     for i, (t, mode) in enumerate(stmts):
         ref = f"L{n - 1}" if mode == "fwd" else "L0"
-        body = t.replace("{L}", ref)
+        body = t.replace("{L}", ref).replace("{l}", ref.lower())
         plain.append(body)
         lines.append(f"L{i}: {body}")
     return "\n".join(lines) + "\n", plain
@@ -84,7 +85,7 @@ def alone(stmt: str, addr: int):
 
 
 def subst(stmt: str, symbols: Dict[str, int]) -> str:
-    return re.sub(r"\bL(\d+)\b", lambda m: f"0x{symbols['L' + m.group(1)]:X}" if ('L' + m.group(1)) in symbols else m.group(0), stmt)
+    return re.sub(r"\b[Ll](\d+)\b", lambda m: f"0x{symbols['L' + m.group(1)]:X}" if ('L' + m.group(1)) in symbols else m.group(0), stmt)
 
 
 class RefError(Exception):
@@ -122,7 +123,9 @@ def reference(plain: List[str], got_syms: Optional[Dict[str, int]]) -> Tuple[Dic
             addrs.append(here)
             if low.startswith("section") or low.startswith(".org"):
                 continue
-            if sec == "bss" and (re.search(r"\bL\d+\b", st) or not low.startswith("def")):
+            if not st.strip():
+                continue
+            if sec == "bss" and (re.search(r"\b[Ll]\d+\b", st) or not low.startswith("def")):
                 raise RefError("instruction-or-reference-inside-bss")
             probe = subst(st, {f"L{k}": ((here[1] & 0xFF0000) | 0x0123) for k in range(len(plain))})
             r = alone(probe, here[1] if sec != "bss" else 0x1000)
@@ -142,16 +145,16 @@ def reference(plain: List[str], got_syms: Optional[Dict[str, int]]) -> Tuple[Dic
     img: Dict[int, int] = {}
     for i, st in enumerate(plain):
         low = st.lower()
-        if low.startswith("section") or low.startswith(".org"):
+        if low.startswith("section") or low.startswith(".org") or not st.strip():
             continue
         sec, a = addrs[i]
         if sec == "bss":
             continue
-        if any(f"L{k}" in re.findall(r"\bL\d+\b", st) for k in range(len(plain)) if f"L{k}" in bss_labels):
+        if any(f"L{k}" in re.findall(r"\bL\d+\b", st.upper()) for k in range(len(plain)) if f"L{k}" in bss_labels):
             if got_syms is None:
                 raise RefError("refers-to-bss-label-and-rejected")
             symbols = dict(symbols, **{k: got_syms[k] for k in bss_labels if k in got_syms})
-        m = re.fullmatch(r"(JP|JPZ|JPNZ|JPC|JPNC|CALL) (L\d+)", st)
+        m = re.fullmatch(r"(JP|JPZ|JPNZ|JPC|JPNC|CALL) (L\d+)", st.upper())
         if m and (symbols[m.group(2)] & 0xFF0000) != (a & 0xFF0000):
             # page-local jump/call to a label on another 64 KiB page (a bare number <= 0xFFFF would mean "this page")
             raise RefError("needs-rejection: near jump/call to another page")
@@ -167,8 +170,12 @@ def reference(plain: List[str], got_syms: Optional[Dict[str, int]]) -> Tuple[Dic
 
 def judge(stmts: List[Tuple[str, str]], vb: VB) -> str:
     text, plain = program_text(stmts)
-    kinds = "+".join(sorted({p.split()[0].upper() + ("-sym" if re.search(r"\bL\d+\b", p) else "") for p in plain
-                             if p.split()[0].upper() in (".ORG", "SECTION") or re.search(r"\bL\d+\b", p)}))[:80] or "plain"
+    return judge_text(text, plain, vb)
+
+
+def judge_text(text: str, plain: List[str], vb: VB) -> str:
+    kinds = "+".join(sorted({p.split()[0].upper() + ("-sym" if re.search(r"\b[Ll]\d+\b", p) else "") for p in plain
+                             if p.strip() and (p.split()[0].upper() in (".ORG", "SECTION") or re.search(r"\b[Ll]\d+\b", p))}))[:80] or "plain"
     wit = lambda: {"program": text}  # noqa: E731
     asm = Assembler()
     try:
@@ -309,17 +316,7 @@ def replay(ctx, w) -> Optional[str]:
     vb = VB()
     if "program" in w:
         lines = [l for l in w["program"].splitlines() if l.strip()]
-        stmts = []
-        n = len(lines)
-        for l in lines:
-            body = l.split(":", 1)[1].strip()
-            mode = ""
-            m = re.search(r"\bL(\d+)\b", body)
-            if m:
-                mode = "fwd" if int(m.group(1)) == n - 1 and n > 1 else "back"
-                body = re.sub(r"\bL\d+\b", "{L}", body)
-            stmts.append((body, mode))
-        judge(stmts, vb)
+        judge_text(w["program"], [l.split(":", 1)[1].strip() for l in lines], vb)
     else:
         r = _hist(([w["first"]], [w["second"]]))
         vb = r["vb"]
